@@ -2,6 +2,7 @@
 import re
 
 from .. import a10
+from .. import a9
 from .. import a7
 from .. import cfg as C
 from .. import rules as R
@@ -15,7 +16,8 @@ EXPLANATION = (
     "family), the '*' missing markers are the same byte on both sides; (R3) the BAM header reader compares the SAM-text "
     "reference dictionary with the binary reference list before returning Ok; (R4) RNEXT '=' is produced only by "
     "write_mate_reference_sequence_name (comparison of the two names) and expanded by the parser's mate arm."
-    " (R5) reused destination: every entry->Ok path of parse_record_buf and try_clone_from_alignment_record overwrites or clears each of the twelve columns (a `*` sentinel must reset the column, not skip it); (R6) append-buffer discipline: every read_line/read_until site of the SAM readers and of the BAM header's text reader is preceded, on all entry paths and all cycles, by a reset of the buffer it appends to.")
+    " (R5) reused destination: every entry->Ok path of parse_record_buf and try_clone_from_alignment_record overwrites or clears each of the twelve columns (a `*` sentinel must reset the column, not skip it); (R6) append-buffer discipline: every read_line/read_until site of the SAM readers and of the BAM header's text reader is preceded, on all entry paths and all cycles, by a reset of the buffer it appends to."
+    " (R7) the SAM-text header sub-reader state machine (sam, bam, cram; sync and async) performs per trait method the same constant stores into its state fields as the majority of its ten copies.")
 ASSUMPTIONS = ["float formatting/parsing, integer width selection for `i` tags and the header grammar are value-level (unit tests)"]
 NOT_DECIDED = ["float text forms, integer tag widths, fixed-point byte equality, full header record grammar and field order",
                "equality of SAM- and BAM-read records beyond the shared data model"]
@@ -103,6 +105,10 @@ def run(ctx):
 
     ctx.rule("C06.R6", "A10 append-buffer discipline: SAM readers (and the BAM header's SAM text) reset their line buffer before every appended line")
     a10.discipline_rule(ctx, "C06.R6", r"^<?noodles_(sam::|bam::(io|r#async)::.*header)", 10)
+
+    ctx.rule("C06.R7", "A9 cross-crate siblings: the SAM-text header sub-reader (sam, bam, cram; sync and async) performs the same state updates per "
+                       "trait method as all ten copies of that state machine (majority reference)")
+    a9.header_reader_agreement(ctx, "C06.R7", r"noodles_(sam|bam|cram)::", 18)
 
     ctx.rule("C06.R2", "A7 dec∘enc = id for the SAM text tables; missing markers agree")
     a7.table_agreement(ctx, "C06.R2", {"noodles_sam"}, 4, exceptions={
